@@ -125,7 +125,7 @@ void Dot11ManagementFrame::rsn_information(const RSNInformation& info) {
 
 vector<uint8_t> Dot11ManagementFrame::serialize_rates(const rates_type& rates) {
     vector<uint8_t> buffer(rates.size());
-    uint8_t* ptr = &buffer[0];
+    uint8_t* ptr = buffer.empty() ? 0 : &buffer[0];
     for (rates_type::const_iterator it = rates.begin(); it != rates.end(); ++it) {
         uint8_t result = static_cast<uint8_t>(*it * 2);
         if (result == 2 || result == 4 || result == 11 || result == 22) {
@@ -147,12 +147,12 @@ Dot11ManagementFrame::rates_type Dot11ManagementFrame::deserialize_rates(const o
 
 void Dot11ManagementFrame::supported_rates(const rates_type& new_rates) {
     vector<uint8_t> buffer = serialize_rates(new_rates);
-    add_tagged_option(SUPPORTED_RATES, static_cast<uint8_t>(buffer.size()), &buffer[0]);
+    add_tagged_option(SUPPORTED_RATES, static_cast<uint8_t>(buffer.size()), buffer.empty() ? 0 : &buffer[0]);
 }
 
 void Dot11ManagementFrame::extended_supported_rates(const rates_type& new_rates) {
     vector<uint8_t> buffer = serialize_rates(new_rates);
-    add_tagged_option(EXT_SUPPORTED_RATES, static_cast<uint8_t>(buffer.size()), &buffer[0]);
+    add_tagged_option(EXT_SUPPORTED_RATES, static_cast<uint8_t>(buffer.size()), buffer.empty() ? 0 : &buffer[0]);
 }
 
 void Dot11ManagementFrame::qos_capability(qos_capability_type new_qos_capability) {
@@ -168,12 +168,12 @@ void Dot11ManagementFrame::power_capability(uint8_t min_power, uint8_t max_power
 
 void Dot11ManagementFrame::supported_channels(const channels_type& new_channels) {
     vector<uint8_t> buffer(new_channels.size() * 2);
-    uint8_t* ptr = &buffer[0];
+    uint8_t* ptr = buffer.empty() ? 0 : &buffer[0];
     for (channels_type::const_iterator it = new_channels.begin(); it != new_channels.end(); ++it) {
         *(ptr++) = it->first;
         *(ptr++) = it->second;
     }
-    add_tagged_option(SUPPORTED_CHANNELS, static_cast<uint8_t>(buffer.size()), &buffer[0]);
+    add_tagged_option(SUPPORTED_CHANNELS, static_cast<uint8_t>(buffer.size()), buffer.empty() ? 0 : &buffer[0]);
 }
 
 void Dot11ManagementFrame::edca_parameter_set(uint32_t ac_be, uint32_t ac_bk, uint32_t ac_vi, uint32_t ac_vo) {
@@ -189,7 +189,7 @@ void Dot11ManagementFrame::edca_parameter_set(uint32_t ac_be, uint32_t ac_bk, ui
 }
 
 void Dot11ManagementFrame::request_information(const request_info_type elements) {
-    add_tagged_option(REQUEST_INFORMATION, static_cast<uint8_t>(elements.size()), &elements[0]);
+    add_tagged_option(REQUEST_INFORMATION, static_cast<uint8_t>(elements.size()), elements.empty() ? 0 : &elements[0]);
 }
 
 void Dot11ManagementFrame::fh_parameter_set(const fh_params_set& fh_params) {
